@@ -695,8 +695,24 @@ impl PersistenceState {
             );
         }
         let mut manifest = Manifest::load(&manifest_path)?;
-        manifest.wal_segments.push(new_wal_name);
-        manifest.save(&manifest_path)?;
+        manifest.wal_segments.push(new_wal_name.clone());
+        if let Err(e) = manifest.save(&manifest_path) {
+            // save() can fail after its rename (e.g. the directory fsync fails). If the
+            // MANIFEST on disk already names the new segment as the active one, the rotation
+            // is committed: appending to the old segment from here on would let the next
+            // snapshot compact that segment away together with acknowledged writes.
+            let committed = Manifest::load(&manifest_path)
+                .map(|on_disk| on_disk.wal_segments.last() == Some(&new_wal_name))
+                .unwrap_or(false);
+            if !committed {
+                return Err(e);
+            }
+            warn!(
+                error = %e,
+                new = %new_wal_path.display(),
+                "MANIFEST save reported an error after publishing the new WAL segment; completing rotation"
+            );
+        }
 
         *wal_guard = new_writer;
         info!(
